@@ -1666,25 +1666,132 @@ Section Share.
     eapply ids_sub; [apply Hs; exact Hx|exact Hh'].
   Qed.
 
+  Definition shape_val (n : Z) (st : dst) : pval :=
+    PSeq QTuple (d_next st) (s "builtins") (s "tuple") false
+      [PScalar (if is_small_int n then small_int_base + n else d_next st + 1)%Z (SInt n)].
+
+  Lemma shape_node n st1 shj st2 :
+    shape_state [n] st1 = (shj, st2) -> scalar_rt_ok (SInt n) = true ->
+    (is_small_int n = true -> Objs (PScalar (small_int_base + n) (SInt n))) -> (base <= d_next st1)%Z -> (0 < base)%Z ->
+    (d_next st1 < d_next st2)%Z /\ d_late st2 = d_late st1 /\ d_members st2 = d_members st1 /\ d_uuid st2 = d_uuid st1
+    /\ file_table shj = [] /\
+    forall fuel m1 sl, (2 <= fuel)%nat -> memo_lt m1 (d_next st1) -> MOK st2 -> lk_incl (d_members st2) (c_members C) ->
+      exists shn m2, get_tree fuel E proto [] sl m1 shj = Ok (shn, m2)
+        /\ node_slot shn = sl /\ notleaf shn = true /\ mono m1 m2 /\ grow m1 [shn] m2 /\ memo_lt m2 (d_next st2)
+        /\ Spec shn (shape_val n st1) m1 /\ allok shn m2.
+  Proof.
+    intros Hsh Hrt Hio Hb Hb0. unfold shape_val. destruct (is_small_int n) eqn:Hsm.
+    - (* len(obj) is a cached small int *)
+      rewrite (shape_state_small n st1 Hsm) in Hsh. specialize (Hio eq_refl).
+      set (i := (small_int_base + n)%Z) in *.
+      set (st2' := snd (fresh st1)) in *.
+      assert (Hd2 : d_next st2' = (d_next st1 + 1)%Z) by reflexivity.
+      match type of Hsh with (?a, _) = _ => set (shj' := a) in Hsh end.
+      assert (Hft : file_table shj' = []) by reflexivity.
+      injection Hsh as <- <-. split; [lia|]. split; [reflexivity|]. split; [reflexivity|]. split; [reflexivity|]. split; [exact Hft|].
+      unfold shj'. clear Hft shj'. set (st2 := st2') in *.
+      intros fuel m1 sl Hfuel Hlt Hmok2 HpLk. destruct fuel as [|fuel]; [lia|].
+      set (kt := PSeq QTuple (d_next st1) (s "builtins") (s "tuple") false [PScalar i (SInt n)]).
+      assert (HQi : Forall Q [PScalar i (SInt n)]) by (constructor; [apply scalar_Q; assumption|constructor]).
+      rewrite (gt_step fuel sl m1 _ _ _ _ (d_next st1) (s "_general.TupleNode") KTuple); [|reflexivity|cbn; tauto|reflexivity].
+      assert (Hmem2 : memo_mem (key (d_next st1)) m1 = false) by (apply (memo_lt_fresh _ (d_next st1)); [exact Hlt|lia]).
+      rewrite Hmem2.
+      assert (Hx1 : Objs kt \/ (base <= d_next st1)%Z) by (right; lia).
+      assert (Hx2 : (0 < d_next st1)%Z) by lia.
+      assert (Hx3 : (base <= d_next st2)%Z) by lia.
+      assert (Hst : states_of (fun x s0 => get_state D x s0) [PScalar i (SInt n)] st2 = Ok ([json_state (show_Z n) i], st2)) by reflexivity.
+      destruct (seq_node QTuple (d_next st1) (s "tuple") [PScalar i (SInt n)] st2 [json_state (show_Z n) i] st2 Hx1 Hx2 eq_refl HQi Hst Hx3
+                  fuel m1 sl (d_next st2)) as [shn [m2 [Hkt [Hksl [Hknl [Hkmo [Hkgr [Hklt [Hksp Hkal]]]]]]]]].
+      { cbn [need max_map]. lia. }
+      { eapply memo_lt_le; [|exact Hlt]. lia. }
+      { lia. }
+      { lia. }
+      { exact Hmem2. }
+      { split; [exact Hmok2|]. split; [exact HpLk|]. intros j0 [<-|[]] e He. destruct He. }
+      exists shn, m2. split; [exact Hkt|]. auto 10.
+    - (* len(obj) > 256: a fresh int object *)
+      clear Hio. unfold shape_state, fresh in Hsh. cbn [shape_items] in Hsh. unfold int_obj, fresh in Hsh. rewrite Hsm in Hsh. cbn [d_next] in Hsh.
+      set (tid := d_next st1) in *. set (i := (tid + 1)%Z) in *.
+      injection Hsh as <- <-. cbn [d_next d_late d_members d_uuid].
+      split; [lia|]. split; [reflexivity|]. split; [reflexivity|]. split; [reflexivity|]. split; [reflexivity|].
+      intros fuel m1 sl Hfuel Hlt _ _. destruct fuel as [|[|fuel]]; try lia.
+      set (t0 := show_Z n).
+      rewrite (gt_step (S fuel) sl m1 _ _ _ _ tid (s "_general.TupleNode") KTuple); [|reflexivity|cbn; tauto|reflexivity].
+      assert (Hmem2 : memo_mem (key tid) m1 = false) by (apply (memo_lt_fresh _ tid); [exact Hlt|lia]).
+      rewrite Hmem2.
+      set (jt := node_state (CodecDump.K "tuple") (CodecDump.K "builtins") (CodecDump.K "TupleNode")
+                   [(CodecDump.K "content", JArr [json_state t0 i])] tid).
+      assert (Hbd : forall rec, build E rec sl [] (s "_general.TupleNode") KTuple m1 jt
+              = do (h, m0) <- node_init sl KTuple (s "_general.TupleNode") [] true m1 jt JNull;
+                do (c, m') <- rec [] (SElem (GetTree.K "content")) m0 (json_state t0 i);
+                Ok (Node h [c], m')).
+      { intros rec. unfold build. destruct (node_init _ _ _ _ _ _ _ _) as [[h m0]|]; [|reflexivity]. cbn [bind].
+        change (jindex jt (GetTree.K "content")) with (Ok (A:=json) (JArr [json_state t0 i])). cbn [bind jiter sub_list].
+        destruct (rec [] (SElem (GetTree.K "content")) m0 (json_state t0 i)) as [[c m']|]; reflexivity. }
+      rewrite Hbd. unfold jt at 1. rewrite init_eq by (try reflexivity; unfold tid; lia). cbn [bind]. clear Hbd.
+      unfold json_state at 1.
+      rewrite (gt_step fuel (SElem (GetTree.K "content")) (key tid :: m1) _ _ _ _ i (s "_general.JsonNode") KJson); [|reflexivity|cbn; tauto|reflexivity].
+      assert (Hm0 : memo_lt (key tid :: m1) (tid + 1)) by (apply memo_lt_cons; [lia|]; eapply memo_lt_le; [|exact Hlt]; unfold tid; lia).
+      rewrite (memo_lt_fresh _ (tid + 1) i Hm0 ltac:(unfold i; lia)).
+      set (ji := node_state (CodecDump.K "str") (CodecDump.K "builtins") (CodecDump.K "JsonNode")
+                   [(CodecDump.K "content", JStr t0); (CodecDump.K "is_json", JBool true)] i).
+      assert (Hbi : forall rec, build E rec (SElem (GetTree.K "content")) [] (s "_general.JsonNode") KJson (key tid :: m1) ji
+              = do (h, m0) <- node_init (SElem (GetTree.K "content")) KJson (s "_general.JsonNode") [] true (key tid :: m1) ji JNull;
+                Ok (Node (set_aux h (JStr t0)) [], m0)).
+      { intros rec. unfold build. destruct (node_init _ _ _ _ _ _ _ _) as [[h m0]|]; reflexivity. }
+      rewrite Hbi. unfold ji at 1. rewrite init_eq by (try reflexivity; unfold i, tid; lia). cbn [bind]. clear Hbi.
+      eexists. eexists. split; [reflexivity|].
+      set (hdT := mkh sl KTuple (s "_general.TupleNode") tid (CodecDump.K "tuple") (CodecDump.K "builtins") JNull).
+      set (hdI := set_aux (mkh (SElem (GetTree.K "content")) KJson (s "_general.JsonNode") i (CodecDump.K "str") (CodecDump.K "builtins") JNull) (JStr t0)).
+      set (kt := PSeq QTuple tid (s "builtins") (s "tuple") false [PScalar i (SInt n)]).
+      assert (Hsp : SpecN (Node hdT [Node hdI []]) kt m1).
+      { intros R _ _ _ cf Hcf. cbn [need max_map kt] in Hcf. destruct cf as [|[|cf]]; try lia.
+        assert (Hinn : construct_val C files R (S cf) (Node hdI []) = Ok (PScalar i (SInt n))).
+        { cbn [construct_val]. unfold cbody, hdI, set_aux, mkh. cbn [h_kind h_aux]. unfold scalar_rt_ok in Hrt. cbn [json_text] in Hrt. fold t0 in Hrt.
+          destruct (json_parse t0) as [sc'|]; [|discriminate Hrt]. cbn [bind].
+          destruct sc'; try discriminate Hrt. cbn [scalar_eqb] in Hrt. apply Z.eqb_eq in Hrt. subst z.
+          unfold nid, key. cbn [h_id]. rewrite key_div. reflexivity. }
+        generalize dependent (Node hdI []). intros inn Hinn.
+        change (construct_val C files R (S (S cf)) (Node hdT [inn])) with (cbody C files hdT [inn] (construct_val C files R (S cf))).
+        unfold cbody, hdT, mkh. cbn [h_kind]. fold (mkh sl KTuple (s "_general.TupleNode") tid (CodecDump.K "tuple") (CodecDump.K "builtins") JNull). fold hdT.
+        assert (Hgt : gt C hdT = Ok (s "builtins", s "tuple")).
+        { apply gt_ok; [reflexivity|reflexivity|apply lit_ne; discriminate|apply lit_ne; discriminate|apply not_missing; cbn; tauto]. }
+        rewrite Hgt. cbn [bind].
+        replace (strip_empty LEmptyList [inn]) with [inn].
+        2:{ cbn [strip_empty]. destruct inn as [? ?|? ?|? l0]; try reflexivity. cbn [construct_val] in Hinn. discriminate Hinn. }
+        cbn [mapM]. rewrite Hinn. cbn [bind].
+        pose proof HC as [HCn _]. pose proof Hsane as Hs'. unfold facts_sane in Hs'. apply andb_prop in Hs'. destruct Hs' as [Hnt _].
+        apply negb_true_iff in Hnt. change (qual (s "builtins") (s "tuple")) with (s "builtins.tuple"). rewrite HCn, Hnt.
+        change (pstr_eqb (s "builtins.tuple") (s "builtins.tuple")) with true. cbn iota.
+        unfold hdT. rewrite nid_mkh. reflexivity. }
+      split; [reflexivity|]. split; [reflexivity|]. split; [eapply mono_trans; apply mono_cons|]. split.
+      { intros h Hh. cbn [memo_mem] in Hh. apply orb_prop in Hh. destruct Hh as [Hh|Hh].
+        - right. apply hkey_eqb_eq in Hh. subst h. cbn. right. left. reflexivity.
+        - apply orb_prop in Hh. destruct Hh as [Hh|Hh]; [|left; exact Hh]. right. apply hkey_eqb_eq in Hh. subst h. cbn. left. reflexivity. }
+      split.
+      { apply memo_lt_cons; [lia|]. apply memo_lt_cons; [unfold i; lia|]. eapply memo_lt_le; [|exact Hlt]. unfold i, tid. lia. }
+      split; [apply Spec_of_SpecN; exact Hsp|].
+      intros t1 hd0 subs0 hk Hs Ht Hi. apply sub_node_inv in Hs. destruct Hs as [->|[x [[<-|[]] Hs]]].
+      + injection Ht as <- <-. cbn in Hi. injection Hi as <-. left. exists tid. split; [reflexivity|exact Hb].
+      + apply sub_node_inv in Hs. destruct Hs as [->|[y [[] Hs]]].
+        injection Ht as <- <-. cbn in Hi. injection Hi as <-. left. exists i. split; [reflexivity|unfold i; lia].
+  Qed.
+
   (* ---- rank-1 object arrays: the cells travel as the content of the list tolist() creates (only its content is kept),
-     the shape as a fresh tuple around the cached small int len(obj) ---- *)
+     the shape as a fresh tuple around len(obj) ---- *)
   Lemma objarr_Q id cells :
     let n := Z.of_nat (length cells) in
     Objs (PObjArr id (s "numpy") (s "ndarray") [n] cells) ->
-    is_small_int n = true -> scalar_rt_ok (SInt n) = true -> Objs (PScalar (small_int_base + n) (SInt n)) ->
+    scalar_rt_ok (SInt n) = true -> (is_small_int n = true -> Objs (PScalar (small_int_base + n) (SInt n))) ->
     Forall Q cells -> Q (PObjArr id (s "numpy") (s "ndarray") [n] cells).
   Proof.
-    intros n Hv Hsm Hrt Hio HQ st j st3 H Hb. cbn [get_state map] in H.
+    intros n Hv Hrt Hio HQ st j st3 H Hb. cbn [get_state map] in H.
     replace (Z.to_nat n) with (length cells) in H by (unfold n; rewrite Nat2Z.id; reflexivity).
     rewrite (tolist_rank1 (fun x s0 => get_state D x s0)) in H.
     destruct (fresh st) as [lid sta] eqn:Hfr.
     destruct (states_of _ cells sta) as [[js st1]|] eqn:E0; [|discriminate H]. cbn [bind] in H.
     change (jindex (list_state js lid) (CodecDump.K "content")) with (Ok (A:=json) (JArr js)) in H. cbn [bind] in H.
-    rewrite (shape_state_small n st1 Hsm) in H.
-    set (i := (small_int_base + n)%Z) in *.
-    set (shj := node_state (CodecDump.K "tuple") (CodecDump.K "builtins") (CodecDump.K "TupleNode")
-                  [(CodecDump.K "content", JArr [json_state (show_Z n) i])] (d_next st1)) in H.
-    set (st2 := snd (fresh st1)) in H.
+    destruct (shape_state [n] st1) as [shj st2] eqn:Esh.
     pose proof (Oid _ Hv) as Hid. cbn [pid] in Hid.
     set (v := PObjArr id (s "numpy") (s "ndarray") [n] cells) in *.
     match type of H with Ok (?a, _) = _ => set (jv := a) in H end.
@@ -1692,16 +1799,14 @@ Section Share.
     assert (Hd : lid = d_next st /\ d_next sta = (d_next st + 1)%Z /\ d_late sta = d_late st /\ d_members sta = d_members st /\ d_uuid sta = d_uuid st).
     { unfold fresh in Hfr. injection Hfr as <- <-. cbn. repeat split; reflexivity. }
     destruct Hd as [-> [Hna [Hla [Hma Hua]]]].
-    assert (Hd2 : d_next st2 = (d_next st1 + 1)%Z /\ d_late st2 = d_late st1 /\ d_members st2 = d_members st1 /\ d_uuid st2 = d_uuid st1)
-      by (unfold st2, fresh; cbn; repeat split; reflexivity).
-    destruct Hd2 as [Hn2 [Hl2 [Hm2 Hu2]]].
     destruct (states_share cells HQ _ _ _ E0 ltac:(lia)) as [Hlate1 [Hnext1 [[Hlk1 [Hft1 Hmok1]] HL]]].
+    destruct (shape_node n st1 shj st2 Esh Hrt Hio ltac:(lia) ltac:(lia)) as [Hn2 [Hl2 [Hm2 [Hu2 [Hfts Hshape]]]]].
     split; [congruence|]. split; [lia|].
     assert (Hftj : file_table jv = flat_map file_table js).
     { unfold jv. rewrite ft_node_state by reflexivity. cbn [dget flat_map snd app].
       change (pstr_eqb (s "file") (CodecDump.K "content")) with false. change (pstr_eqb (s "file") (CodecDump.K "type")) with false.
       change (pstr_eqb (s "file") (CodecDump.K "shape")) with false. cbn iota. rewrite file_table_arr.
-      replace (file_table shj) with (@nil (hkey * json)) by reflexivity. cbn [file_table app]. rewrite !app_nil_r. reflexivity. }
+      rewrite Hfts. cbn [file_table app]. rewrite !app_nil_r. reflexivity. }
     assert (Hmoka : MOK st -> MOK sta) by (intros Hm0; apply (MOK_next st sta); [exact Hma|lia|lia|exact Hm0]).
     assert (Hmok2 : MOK st1 -> MOK st2) by (intros Hm0; apply (MOK_next st1 st2); [exact Hm2|lia|lia|exact Hm0]).
     assert (Hpost : Post st jv st2).
@@ -1727,29 +1832,14 @@ Section Share.
     { apply memo_lt_cons; [lia|]. eapply memo_lt_le; [|exact Hm]. lia. }
     { split; [apply Hmoka; exact HpMOK|]. split; [exact HpLk|]. intros j0 Hj0 e He. apply HpF. rewrite Hftj. apply in_flat_map. exists j0. auto. }
     rewrite Hsub. cbn [bind].
-    (* the shape tuple, an object the dumper creates, around the cached small int *)
-    set (kt := PSeq QTuple (d_next st1) (s "builtins") (s "tuple") false [PScalar i (SInt n)]).
-    assert (HQi : Forall Q [PScalar i (SInt n)]) by (constructor; [apply scalar_Q; assumption|constructor]).
-    unfold shj at 1. rewrite (gt_step fuel (SOne (GetTree.K "shape")) m1 _ _ _ _ (d_next st1) (s "_general.TupleNode") KTuple);
-      [|reflexivity|cbn; tauto|reflexivity].
-    assert (Hmem2 : memo_mem (key (d_next st1)) m1 = false) by (apply (memo_lt_fresh _ (d_next st1)); [exact Hlt|lia]).
-    rewrite Hmem2.
-    assert (Hx1 : Objs kt \/ (base <= d_next st1)%Z) by (right; lia).
-    assert (Hx2 : (0 < d_next st1)%Z) by lia.
-    assert (Hx3 : (base <= d_next st2)%Z) by lia.
-    assert (Hst : states_of (fun x s0 => get_state D x s0) [PScalar i (SInt n)] st2 = Ok ([json_state (show_Z n) i], st2)) by reflexivity.
-    destruct (seq_node QTuple (d_next st1) (s "tuple") [PScalar i (SInt n)] st2 [json_state (show_Z n) i] st2 Hx1 Hx2 eq_refl HQi Hst Hx3
-                fuel m1 (SOne (GetTree.K "shape")) (d_next st2)) as [shn [m2 [Hkt [Hksl [Hknl [Hkmo [Hkgr [Hklt [Hksp Hkal]]]]]]]]].
-    { cbn [need max_map]. lia. }
-    { eapply memo_lt_le; [|exact Hlt]. lia. }
+    (* the shape tuple, an object the dumper creates *)
+    set (kt := shape_val n st1).
+    destruct (Hshape (S fuel) m1 (SOne (GetTree.K "shape"))) as [shn [m2 [Hkt [Hksl [Hknl [Hkmo [Hkgr [Hklt [Hksp Hkal]]]]]]]]].
     { lia. }
-    { lia. }
-    { exact Hmem2. }
-    { split; [apply Hmok2; apply Hmok1; apply Hmoka; exact HpMOK|]. split; [rewrite Hm2; exact HpLk|].
-      intros j0 [<-|[]] e He. destruct He. }
-    match goal with |- context [build E (get_tree fuel E proto) ?sl0 [] ?tg ?kk ?mm ?jj] =>
-      replace (build E (get_tree fuel E proto) sl0 [] tg kk mm jj) with (Ok (A:=node * memo) (shn, m2)) by (symmetry; exact Hkt) end.
-    cbn [bind]. clear Hkt. eexists. eexists. split; [reflexivity|].
+    { exact Hlt. }
+    { apply Hmok2; apply Hmok1; apply Hmoka; exact HpMOK. }
+    { rewrite Hm2; exact HpLk. }
+    rewrite Hkt. cbn [bind]. clear Hkt. eexists. eexists. split; [reflexivity|].
     set (hd := set_aux (mkh sl KNdArray (s "_numpy.NdArrayNode") id (s "ndarray") (s "numpy") JNull) (JStr (GetTree.K "json"))).
     set (subs := or_empty (GetTree.K "content") LEmptyList ns ++ [shn]).
     assert (Hin : forall x, In x ns -> In x subs).
@@ -1762,9 +1852,9 @@ Section Share.
     { intros R Hs HmR Hg cf Hcf. destruct cf as [|cf]; [pose proof (need_pos v); lia|]. cbn [construct_val].
       unfold v in Hcf. cbn [need] in Hcf. fold v in Hcf.
       assert (Hkv : construct_val C files R cf shn = Ok kt).
-      { apply (Hksp R); [eapply sub_child; [exact Hs|exact Hins]| | |cbn [need max_map]; lia].
+      { apply (Hksp R); [eapply sub_child; [exact Hs|exact Hins]| | |unfold kt, shape_val; cbn [need max_map]; lia].
         - eapply minR_steps; [apply Hm0R; eassumption| |exact Hgr]. intros x Hx. eapply sub_child; [exact Hs|apply Hin; exact Hx].
-        - eapply HG_mono; [|exact Hg]. unfold v. cbn [size sum_map]. lia. }
+        - eapply HG_mono; [|exact Hg]. unfold kt, shape_val, v. cbn [size sum_map]. lia. }
       assert (Hmap : mapM (construct_val C files R cf) ns = Ok cells).
       { apply mapM_den.
         - apply (Hls R (size v)).
@@ -1775,7 +1865,7 @@ Section Share.
         - intros w Hw. pose proof (max_map_in (fun x => need x) w cells Hw). cbn beta in *. lia. }
       unfold cbody, hd, set_aux, mkh. cbn [h_kind h_aux h_id h_module h_class h_slot h_tag h_extra].
       change (jstr_eqb (JStr (GetTree.K "json")) (s "numpy")) with false. cbn iota.
-      unfold subs. rewrite rev_unit, Hkv. cbn [bind kt as_items]. rewrite rev_involutive, (strip_or_empty _ _ Hsl), Hmap. cbn [bind].
+      unfold subs. rewrite rev_unit, Hkv. unfold kt, shape_val. cbn [bind as_items]. rewrite rev_involutive, (strip_or_empty _ _ Hsl), Hmap. cbn [bind].
       unfold nid, key. cbn [h_id]. rewrite key_div. reflexivity. }
     unfold Res. cbn [node_slot notleaf]. repeat split.
     - eapply mono_trans; [apply mono_cons|]. eapply mono_trans; eauto.
@@ -1813,10 +1903,11 @@ Section Share.
     | POpFunc _ c a => resolvable F (s "operator") c = true /\ opfunc_attrs_ok c a /\ vok a
     | PArr _ gen mo c _ => arr_cls_ok gen mo c
     | PObjArr _ mo c shape cells =>
-        (* rank 1; len(obj) is a cached small int, an object of the value's universe *)
+        (* rank 1; if len(obj) is a cached small int it is an object of the value's universe *)
         mo = s "numpy" /\ c = s "ndarray" /\ shape = [Z.of_nat (length cells)]
-        /\ is_small_int (Z.of_nat (length cells)) = true /\ scalar_rt_ok (SInt (Z.of_nat (length cells))) = true
-        /\ Objs (PScalar (small_int_base + Z.of_nat (length cells)) (SInt (Z.of_nat (length cells))))
+        /\ scalar_rt_ok (SInt (Z.of_nat (length cells))) = true
+        /\ (is_small_int (Z.of_nat (length cells)) = true ->
+            Objs (PScalar (small_int_base + Z.of_nat (length cells)) (SInt (Z.of_nat (length cells)))))
         /\ (fix all (l : list pval) : Prop := match l with [] => True | x :: l' => vok x /\ all l' end) cells
     | PSparse _ _ _ _ | PDType _ _ => True
     | PMasked _ mo c d k => mo = s "numpy.ma" /\ c = s "MaskedArray" /\ vok d /\ vok k
@@ -1856,7 +1947,7 @@ Section Share.
       apply Forall_map_snd. eapply Forall_imp2; [exact IH|apply vok_vals; exact Hvals].
     - intros id mo c f l IHf IH [Ho [-> [-> [Hi [Hf Hvals]]]]]. apply defdict_Q; try assumption; [apply IHf; exact Hf|].
       apply Forall_map_snd. eapply Forall_imp2; [exact IH|apply vok_vals; exact Hvals].
-    - intros id mo c sh l IH [Ho [-> [-> [-> [Hsm [Hrt [Hio Hall]]]]]]]. apply objarr_Q; try assumption.
+    - intros id mo c sh l IH [Ho [-> [-> [-> [Hrt [Hio Hall]]]]]]. apply objarr_Q; try assumption.
       eapply Forall_imp2; [exact IH|apply vok_all; exact Hall].
     - intros id mo c d k IHd IHk [Ho [-> [-> [Hd Hk0]]]]. apply masked_Q; auto.
     - intros id mo c x IHx [Ho [Hr Hx]]. apply randstate_Q; auto.
